@@ -471,3 +471,48 @@ fn c01_msg_nwtrace() {
     let m = finish_message::<2>(p, Some(e), kani::any());
     check_message_roundtrip(&m);
 }
+
+// ---------------------------------------------------------------------------------------------
+// message writer glue on constant shapes: Message::as_bytes == storage header ++ standard header
+// (LEN = all headers + payload) ++ extended header ++ payload, each part the reference layout
+// ---------------------------------------------------------------------------------------------
+
+fn msg_write_case(with_storage: bool, with_ext: bool, big: bool, payload: PayloadContent, pl_len: u16) {
+    let h = StandardHeader {
+        version: 1,
+        endianness: if big { Endianness::Big } else { Endianness::Little },
+        has_extended_header: with_ext,
+        message_counter: kani::any(),
+        ecu_id: Some(ascii_exact::<3>()),
+        session_id: None,
+        timestamp: Some(kani::any()),
+        payload_length: pl_len,
+    };
+    let e = if with_ext {
+        Some(ExtendedHeader { verbose: false, argument_count: 0, message_type: MessageType::Log(LogLevel::Warn), application_id: ascii_exact::<4>(), context_id: ascii_exact::<1>() })
+    } else {
+        None
+    };
+    let sh = if with_storage { Some(StorageHeader { timestamp: DltTimeStamp { seconds: kani::any(), microseconds: kani::any() }, ecu_id: ascii_exact::<4>() }) } else { None };
+    let m = Message { storage_header: sh, header: h, extended_header: e, payload };
+    let bytes = m.as_bytes();
+    let o = ref_encode_message(&m);
+    assert!(o.eq_bytes(&bytes));
+    let hl: usize = 4 + 4 + 4 + if with_ext { 10 } else { 0 };
+    assert!(m.byte_len() as usize == hl + pl_len as usize);
+    assert!(bytes.len() == m.byte_len() as usize + if with_storage { 16 } else { 0 });
+}
+
+macro_rules! msg_write_harness {
+    ($name:ident, $sto:expr, $ext:expr, $big:expr, $payload:expr, $pl:expr) => {
+        #[kani::proof]
+        #[kani::stub(alloc::fmt::format, fmt_stub)]
+        #[kani::unwind(60)]
+        fn $name() {
+            msg_write_case($sto, $ext, $big, $payload, $pl);
+        }
+    };
+}
+msg_write_harness!(c01_msg_write_nv_sto_ext_be, true, true, true, PayloadContent::NonVerbose(kani::any(), bytes_exact::<2>()), 6);
+msg_write_harness!(c01_msg_write_nv_noext_le, false, false, false, PayloadContent::NonVerbose(kani::any(), bytes_exact::<1>()), 5);
+msg_write_harness!(c01_msg_write_ctrl_ext_le, false, true, false, PayloadContent::ControlMsg(ControlType::from_value(kani::any()), bytes_exact::<2>()), 3);
